@@ -247,6 +247,10 @@ def enumerators_use_primary(ctx, P, E, rule):
         for g in P.family(f):
             own += [a for a in E.own_acc(g) if a.cell[0] == L]
         reads_primary = any(a.cell[1] == vc[role] for a in own)
+        if not reads_primary:
+            # the ids may come from another enumerator of the store (all_nodes built on node_ids)
+            _, Rt = E.closure_sets([f], edge_filter=lambda a_, b_: "::lpg::store::LpgStore::" in b_)
+            reads_primary = (L, vc[role]) in Rt and not any(common.LPG_CELLS.get(a.cell[1]) in ("index", "data") for a in own)
         side = sorted({a.cell[1] for a in own if common.LPG_CELLS.get(a.cell[1]) in ("index", "data") and a.cell[1] != vc[role]})
         ctx.ob(rule, "LpgStore::%s#ids-from-primary" % m, reads_primary and not side,
                what="LpgStore::%s %s: entities without an entry there are skipped (%s)"
